@@ -91,6 +91,7 @@ def main(argv=None):
 def _main(a, prop, seed, t0, scratch):
     from vt import repo
     so = repo.build_extension(scratch)
+    os.environ["VT_SCRATCH"] = scratch     # workers create their own temporary directories inside it; removed with it
     os.environ["VT_SPECPART_SO"] = so
     repo.setup(so)
     from vt import harness as H
